@@ -115,10 +115,23 @@ func (c *Check) entries(rule string) []*Entry {
 	if nh == nil {
 		return nil
 	}
+	// the dispatcher is the function value NewHandler returns: a literal, a named function or a bound method
 	var lit *Func
-	for _, f := range p.Funcs {
-		if f.Parent == nh {
-			lit = f
+	for _, pa := range p.PathsOf(nh) {
+		if len(pa.Ret) == 1 {
+			r := stripConv(pa.Ret[0])
+			if r.Is("func") && len(r.A) >= 1 {
+				if g := p.FuncNamed(r.A[0].At); g != nil && g.Body != nil {
+					lit = g
+				}
+			}
+		}
+	}
+	if lit == nil {
+		for _, f := range p.Funcs {
+			if f.Parent == nh {
+				lit = f
+			}
 		}
 	}
 	if lit == nil {
@@ -382,6 +395,20 @@ func argMap(g *Func, call *Term) map[string]*Term {
 		}
 	}
 	return m
+}
+
+// constTerm: the atom of a named constant of package types, carrying its object (so that constant
+// comparison and enumeration size are available to fact reasoning).
+func (c *Check) constTerm(q string) *Term {
+	a := atom("#" + q)
+	if i := strings.Index(q, "."); i > 0 && q[:i] == "types" {
+		if tp := c.P.ByPkg[pkgTypes]; tp != nil {
+			if o := tp.Types.Scope().Lookup(q[i+1:]); o != nil {
+				return a.withObj(o).withType(o.Type())
+			}
+		}
+	}
+	return a
 }
 
 // hasFactMatching searches facts (after closure) for pattern with polarity.
